@@ -195,7 +195,7 @@ Proof.
   destruct (ensure_alloced_ok nv s a h v l _ (length l + length t + 1) [] HG Hg ltac:(lia))
     as [s1 [id [d [He [HG1 [[Ev1 [Hd [Hr [Hal [Hamt [Hlen Hb]]]]]] _]]]]]].
   rewrite He. cbn [bind]. rewrite (with_data_some s1 v id d _ Ev1 Hd).
-  destruct (Hb Hnz) as [rest Hbuf].
+  destruct Hb as [rest Hbuf].
   assert (Hcs : cstr (buf d) = Some l) by (rewrite Hbuf; now apply cstr_app).
   rewrite Hcs. cbn [ov bind].
   assert (Hw : write_at (buf d) (length l) (t ++ [0%N]) =
@@ -209,12 +209,12 @@ Proof.
 Qed.
 
 Lemma append_char_ok nv s a h v c :
-  Inv nv s a h -> (v < N.of_nat nv)%N -> nz (get a v) ->
+  Inv nv s a h -> (v < N.of_nat nv)%N ->
   exists s', append_char s v c = Ok s' /\
              Inv nv s' (if N.eqb c 0 then a else set a v (get a v ++ [c]))
                        (if N.eqb c 0 then h else set h v true).
 Proof.
-  intros HI Hv Hnz. unfold append_char. destruct (N.eqb_spec c 0) as [E|Hc0].
+  intros HI Hv. unfold append_char. destruct (N.eqb_spec c 0) as [E|Hc0].
   - exists s. auto.
   - destruct (P_open nv s a h v HI Hv) as [HG Hg].
     rewrite (length_of_good _ _ _ _ Hg). cbn [bind]. set (l := get a v) in *.
@@ -222,7 +222,7 @@ Proof.
     destruct (ensure_alloced_ok nv s a h v l _ (length l + 1 + 1) [] HG Hg ltac:(lia))
       as [s1 [id [d [He [HG1 [[Ev1 [Hd [Hr [Hal [Hamt [Hlen Hb]]]]]] _]]]]]].
     rewrite He. cbn [bind]. rewrite (with_data_some s1 v id d _ Ev1 Hd).
-    destruct (Hb Hnz) as [rest Hbuf].
+    destruct Hb as [rest Hbuf].
     assert (Hw : write_at (buf d) (length l) [c; 0%N] =
                  Some (l ++ [c; 0%N] ++ skipn 2 (0%N :: rest))).
     { rewrite Hbuf. apply (write_at_app l (0%N :: rest) [c; 0%N]).
@@ -252,7 +252,7 @@ Proof.
   destruct (ensure_alloced_ok nv s a h v l _ (length l + length t + 1) E HG Hg ltac:(lia))
     as [s1 [id [d [He [HG1 [[Ev1 [Hd [Hr [Hal [Hamt [Hlen Hb]]]]]] Hkeep]]]]]].
   rewrite He. cbn [bind]. rewrite (with_data_some s1 v id d _ Ev1 Hd).
-  destruct (Hb Hnz) as [rest Hbuf].
+  destruct Hb as [rest Hbuf].
   assert (Hcs : cstr (buf d) = Some l) by (rewrite Hbuf; now apply cstr_app).
   rewrite Hcs. cbn [ov bind].
   assert (Hw : write_at (buf d) (length l) (t ++ [0%N]) =
@@ -354,11 +354,11 @@ Qed.
 (* ---- operations that call EnsureDataWritable --------------------------------------------- *)
 
 Lemma set_char_ok nv s a h v i c :
-  Inv nv s a h -> (v < N.of_nat nv)%N -> get h v = true -> nz (get a v) -> c <> 0%N ->
+  Inv nv s a h -> (v < N.of_nat nv)%N -> get h v = true -> c <> 0%N ->
   exists s', set_char s v i c = Ok s' /\ Inv nv s' (set a v (set_nth (get a v) i c)) h.
 Proof.
-  intros HI Hv Hh Hnz Hc.
-  destruct (open_writable nv s a h v HI Hv Hh Hnz) as [s1 [id [d [He [HG [Ev [Hd [Hg Hr]]]]]]]].
+  intros HI Hv Hh Hc.
+  destruct (open_writable nv s a h v HI Hv Hh) as [s1 [id [d [He [HG [Ev [Hd [Hg Hr]]]]]]]].
   unfold set_char. rewrite He. cbn [bind]. rewrite (with_data_some s1 v id d _ Ev Hd).
   destruct Hg as [[rest [Hb Hal]] Hlen]. rewrite Hlen.
   destruct (Nat.leb_spec (length (get a v)) i) as [Hge|Hlt].
@@ -383,15 +383,15 @@ Proof.
 Qed.
 
 Lemma cap_length_ok nv s a h v n :
-  Inv nv s a h -> (v < N.of_nat nv)%N -> nz (get a v) ->
+  Inv nv s a h -> (v < N.of_nat nv)%N ->
   exists s', cap_length s v n = Ok s' /\ Inv nv s' (set a v (firstn n (get a v))) h.
 Proof.
-  intros HI Hv Hnz. destruct (P_open nv s a h v HI Hv) as [_ Hg0].
+  intros HI Hv. destruct (P_open nv s a h v HI Hv) as [_ Hg0].
   unfold cap_length. rewrite (length_of_good _ _ _ _ Hg0). cbn [bind].
   destruct (Nat.leb_spec (length (get a v)) n) as [Hle|Hgt].
   - exists s. split; [reflexivity|]. apply Inv_a_eq; [|exact HI]. now apply firstn_all2.
   - assert (Hnn : get a v <> []) by (intro E; rewrite E in Hgt; cbn in Hgt; lia).
-    destruct (open_writable_nonempty nv s a h v HI Hv Hnn Hnz) as [s1 [id [d [He [HG [Ev [Hd [Hg Hr]]]]]]]].
+    destruct (open_writable_nonempty nv s a h v HI Hv Hnn) as [s1 [id [d [He [HG [Ev [Hd [Hg Hr]]]]]]]].
     rewrite He. cbn [bind]. rewrite (with_data_some s1 v id d _ Ev Hd).
     destruct Hg as [[rest [Hb Hal]] Hlen].
     assert (Hw : write_at (buf d) n [0%N] =
@@ -405,12 +405,12 @@ Proof.
 Qed.
 
 Lemma minus_ok nv s a h v c :
-  Inv nv s a h -> (v < N.of_nat nv)%N -> nz (get a v) ->
+  Inv nv s a h -> (v < N.of_nat nv)%N ->
   exists s', minus s v c = Ok s' /\
     Inv nv s' (if Z.leb c 0 then a
                else set a v (firstn (length (get a v) - Z.to_nat c) (get a v))) h.
 Proof.
-  intros HI Hv Hnz. destruct (P_open nv s a h v HI Hv) as [_ Hg0].
+  intros HI Hv. destruct (P_open nv s a h v HI Hv) as [_ Hg0].
   unfold minus. destruct (get (vars s) v) as [id0|] eqn:Ev0.
   - cbn [vgood] in Hg0. destruct Hg0 as [d0 [Hd0 Hg0]]. unfold deref at 1. rewrite Hd0. cbn [bind].
     assert (Hl0 : dlen d0 = length (get a v)) by apply Hg0.
@@ -420,7 +420,7 @@ Proof.
       * exists s. split; [reflexivity|]. apply Inv_a_eq; [|exact HI].
         rewrite Hl0 in Hz. destruct (get a v); [now rewrite firstn_nil|discriminate].
       * assert (Hnn : get a v <> []) by (intro E; rewrite E in Hl0; cbn in Hl0; lia).
-        destruct (open_writable_nonempty nv s a h v HI Hv Hnn Hnz) as [s1 [id [d [He [HG [Ev [Hd [Hg Hr]]]]]]]].
+        destruct (open_writable_nonempty nv s a h v HI Hv Hnn) as [s1 [id [d [He [HG [Ev [Hd [Hg Hr]]]]]]]].
         rewrite He. cbn [bind]. rewrite (with_data_some s1 v id d _ Ev Hd).
         destruct Hg as [[rest [Hb Hal]] Hlen]. rewrite Hlen.
         set (l := get a v) in *. set (cn := Z.to_nat c).
@@ -446,7 +446,7 @@ Lemma map_case_ok nv s a h v f :
   exists s', map_case f s v = Ok s' /\ Inv nv s' (set a v (map f (get a v))) h.
 Proof.
   intros HI Hv Hh Hnz.
-  destruct (open_writable nv s a h v HI Hv Hh Hnz) as [s1 [id [d [He [HG [Ev [Hd [Hg Hr]]]]]]]].
+  destruct (open_writable nv s a h v HI Hv Hh) as [s1 [id [d [He [HG [Ev [Hd [Hg Hr]]]]]]]].
   unfold map_case. rewrite He. cbn [bind]. rewrite (with_data_some s1 v id d _ Ev Hd).
   rewrite (good_text _ _ Hg). cbn [ov bind]. rewrite (clit_nz _ Hnz).
   destruct Hg as [[rest [Hb Hal]] Hlen]. set (l := get a v) in *.
@@ -464,18 +464,18 @@ Qed.
 (* ---- resize / reserve / assign(text, n) -------------------------------------------------- *)
 
 Lemma resize_ok nv s a h v n :
-  Inv nv s a h -> (v < N.of_nat nv)%N -> nz (get a v) ->
+  Inv nv s a h -> (v < N.of_nat nv)%N ->
   exists s', resize s v n = Ok s' /\
     Inv nv s' (set a v (if Nat.leb n (length (get a v)) then firstn n (get a v)
                         else get a v ++ repeat 0%N (n - length (get a v)))) (set h v true).
 Proof.
-  intros HI Hv Hnz. destruct (P_open nv s a h v HI Hv) as [HG Hg].
+  intros HI Hv. destruct (P_open nv s a h v HI Hv) as [HG Hg].
   unfold resize. set (l := get a v) in *.
   rewrite <- (app_nil_r (olist _)) in HG.
   destruct (ensure_alloced_ok nv s a h v l _ (n + 1) [] HG Hg ltac:(lia))
     as [s1 [id [d [He [HG1 [[Ev1 [Hd [Hr [Hal [Hamt [Hlen Hb]]]]]] _]]]]]].
   rewrite He. cbn [bind]. rewrite (with_data_some s1 v id d _ Ev1 Hd).
-  destruct (Hb Hnz) as [rest Hbuf]. rewrite Hlen.
+  destruct Hb as [rest Hbuf]. rewrite Hlen.
   destruct (Nat.leb_spec n (length l)) as [Hle|Hgt].
   - (* not growing: the fill loop stores at most the terminator that is already there *)
     destruct (Nat.eq_dec n (length l)) as [Hn|Hn].
@@ -519,16 +519,16 @@ Proof.
 Qed.
 
 Lemma reserve_ok nv s a h v n :
-  Inv nv s a h -> (v < N.of_nat nv)%N -> nz (get a v) ->
+  Inv nv s a h -> (v < N.of_nat nv)%N ->
   exists s', reserve s v n = Ok s' /\ Inv nv s' a (set h v true).
 Proof.
-  intros HI Hv Hnz. destruct (P_open nv s a h v HI Hv) as [HG Hg].
+  intros HI Hv. destruct (P_open nv s a h v HI Hv) as [HG Hg].
   unfold reserve. rewrite <- (app_nil_r (olist _)) in HG.
   destruct (ensure_alloced_ok nv s a h v (get a v) _ (n + 1) [] HG Hg ltac:(lia))
     as [s1 [id [d [He [HG1 [[Ev1 [Hd [Hr [Hal [Hamt [Hlen Hb]]]]]] _]]]]]].
   exists s1. split; [exact He|]. apply Inv_a_back with (v := v).
   apply P_close; [rewrite Ev1; exact HG1|exact Hv|]. rewrite Ev1. cbn [vgood].
-  exists d. split; [exact Hd|]. destruct (Hb Hnz) as [rest Hbuf].
+  exists d. split; [exact Hd|]. destruct Hb as [rest Hbuf].
   split; [exists rest; auto|exact Hlen].
 Qed.
 
